@@ -427,6 +427,8 @@ OpenSection(h, d) ==
   /\ CT!NameOK(hn, SectFlags) /\ CT!NameLex(FF, hn) /\ CT!GapOK(FF, d.g) /\ CT!GapOK(FF, d.g2)
   /\ d.g2 \in {"none", "nl", "blank", "spcom"}
   /\ h.name # <<>>
+  /\ \A j \in 1..Len(h.par) : h.par[j] # <<>> /\ \A i \in 1..Len(h.par[j]) : ~IsSp(h.par[j][i]) /\ h.par[j][i] # 58   \* parents are blank separated words
+  /\ \A i \in 1..Len(h.name) : h.name[i] # 58 /\ (i \in {1, Len(h.name)} => ~IsSp(h.name[i]))               \* the name ends at ':'
   /\ text' = CT!Cat(text, OpenText(h, d))
   /\ IF k = ""
      THEN /\ h.par = <<>>
@@ -523,7 +525,7 @@ ResetChoices(k) ==
 FullHdr == Mode \in {"gen", "gent"} /\ cnt.secs <= (IF Mode = "gent" THEN 2 ELSE 1)
 ItemNames == IF FullHdr THEN {NM_a, NM_b, NM_w, NM_a1} ELSE {NM_a, NM_b}
 KindWords == IF FullHdr THEN {KW_axis, KW_xaxis, KW_yaxis, KW_zaxis, KW_world, KW_graph, KW_text, KW_line, KW_legend, KW_Axis}
-             ELSE IF Mode = "mc" THEN (IF MaxSecs <= 3 THEN {KW_axis, KW_world, KW_graph, KW_legend} ELSE {KW_axis, KW_world, KW_graph, KW_text, KW_legend})
+             ELSE IF Mode = "mc" THEN (IF MaxMem >= 2 THEN {KW_axis, KW_world, KW_graph, KW_legend} ELSE {KW_axis, KW_world, KW_graph, KW_text, KW_legend})
              ELSE IF Mode = "gen" THEN {KW_axis, KW_world, KW_graph} ELSE {KW_axis, KW_world, KW_graph, KW_text, KW_line}
 ParChoices == {<<>>} \cup {<<n>> : n \in ItemNames} \cup (IF FullHdr THEN {<<NM_a, NM_b>>, <<NM_b, NM_a>>} ELSE {})
 Headers == {Hdr(kw, nm, par) : kw \in KindWords, nm \in ItemNames, par \in ParChoices}
